@@ -27,7 +27,80 @@ let hex_of_path (p : n list list) =
   List.iteri (fun i c -> if i > 0 then Buffer.add_string b "2f";
     List.iter (fun ch -> Buffer.add_string b (Printf.sprintf "%02x" (int_of_n ch))) c) p;
   Buffer.contents b
+
+(* ---- second mode:  m_amalgam cond  < protocol on stdin   (model of conditional groups, AmalgamCondDefs)
+     K <id> ...                 ids of the known groups
+     F <n>                      the next file (numbered 0, 1, ... in order), followed by n lines:
+        I <id> <cond>  E <id> <cond>  L <id>  N  D <macro>  U <macro>  C <file>  O
+        (if/ifdef/ifndef, elif, else, endif, define, undef, include, pragma once)
+        <cond> in prefix form: d<macro>  ! c  & c c  | c c  1  0  o<k>:<macro>.<macro>...
+     M                          -> "M <macro> ..."  the macros mentioned by the groups outside K
+     R <root> <env> <opq>       -> "R <bad> <too_deep> <id> ..."   groups entered, in order
+     Q <root> <env1> <env2> <opq> -> "Q <0|1>"        [confined]
+     <env>, <opq>: comma separated numbers or "-"  (opq: the opaque conditions that are true) *)
+let rec nat_of_int n = if n <= 0 then O else S (nat_of_int (n - 1))
+let nums s = if s = "-" || s = "" then [] else List.map (fun x -> n_of_int (int_of_string x)) (String.split_on_char ',' s)
+let rec parse_cond toks =
+  match toks with
+  | [] -> failwith "cond: empty"
+  | t :: r ->
+    if t = "!" then let (c, r') = parse_cond r in (CNot c, r')
+    else if t = "&" then let (a, r1) = parse_cond r in let (b, r2) = parse_cond r1 in (CAnd (a, b), r2)
+    else if t = "|" then let (a, r1) = parse_cond r in let (b, r2) = parse_cond r1 in (COr (a, b), r2)
+    else if t = "1" then (CLit true, r)
+    else if t = "0" then (CLit false, r)
+    else if t.[0] = 'd' then (CDef (n_of_int (int_of_string (String.sub t 1 (String.length t - 1)))), r)
+    else if t.[0] = 'o' then begin
+      match String.split_on_char ':' (String.sub t 1 (String.length t - 1)) with
+      | [k; ms] ->
+        let ml = if ms = "" then [] else List.map (fun x -> n_of_int (int_of_string x)) (String.split_on_char '.' ms) in
+        (COpq (n_of_int (int_of_string k), ml), r)
+      | _ -> failwith ("cond: bad opaque token " ^ t)
+    end
+    else failwith ("cond: bad token " ^ t)
+let cond_of toks = match parse_cond toks with (c, []) -> c | _ -> failwith "cond: trailing tokens"
+let parse_line l =
+  match String.split_on_char ' ' (String.trim l) with
+  | "I" :: id :: c -> LIf (n_of_int (int_of_string id), cond_of c)
+  | "E" :: id :: c -> LElif (n_of_int (int_of_string id), cond_of c)
+  | ["L"; id] -> LElse (n_of_int (int_of_string id))
+  | ["N"] -> LEndif
+  | ["D"; m] -> LDefine (n_of_int (int_of_string m))
+  | ["U"; m] -> LUndef (n_of_int (int_of_string m))
+  | ["C"; f] -> LInclude (nat_of_int (int_of_string f))
+  | ["O"] -> LOnce
+  | _ -> failwith ("line: " ^ l)
+let cond_mode () =
+  let k = ref [] and files = ref [] in
+  let opq_of s = let l = List.map int_of_n (nums s) in fun x -> List.mem (int_of_n x) l in
+  (try
+    while true do
+      let l = input_line stdin in
+      match String.split_on_char ' ' (String.trim l) with
+      | "K" :: ids -> k := List.map (fun x -> n_of_int (int_of_string x)) (List.filter (fun x -> x <> "") ids)
+      | ["F"; n] ->
+        let n = int_of_string n in
+        let ls = ref [] in
+        for _ = 1 to n do ls := parse_line (input_line stdin) :: !ls done;
+        files := List.rev !ls :: !files
+      | ["M"] ->
+        let fs = List.rev !files in
+        print_string "M"; List.iter (fun m -> Printf.printf " %d" (int_of_n m)) (mentioned_nonk !k fs); print_newline ()
+      | ["R"; root; e; o] ->
+        let fs = List.rev !files in
+        let s = run_tu !k (opq_of o) fs (nat_of_int (int_of_string root)) (nums e) in
+        Printf.printf "R %d %d" (if s.bad then 1 else 0) (if s.too_deep then 1 else 0);
+        List.iter (fun id -> Printf.printf " %d" (int_of_n id)) (List.rev s.taken); print_newline ()
+      | ["Q"; root; e1; e2; o] ->
+        let fs = List.rev !files in
+        Printf.printf "Q %d\n" (if confined !k (opq_of o) fs (nat_of_int (int_of_string root)) (nums e1) (nums e2) then 1 else 0)
+      | [""] -> ()
+      | _ -> failwith ("protocol: " ^ l)
+    done
+  with End_of_file -> ())
+
 let () =
+  if Array.length Sys.argv > 1 && Sys.argv.(1) = "cond" then (cond_mode (); exit 0);
   let root = Sys.argv.(1) in
   let files = walk (Filename.concat root "src") "src" [] in
   let comps r = List.map str (String.split_on_char '/' r) in
